@@ -132,9 +132,11 @@ def same_result(a, b, scale):
 class Trace:
     """Which of the known-finding code paths did this call take? (anchored on source text, not line numbers)"""
 
-    def __init__(self):
+    def __init__(self, module=None):
         import inspect
-        from frequenz.sdk.microgrid._power_distributing._distribution_algorithm import _battery_distribution_algorithm as m
+        if module is None:
+            from frequenz.sdk.microgrid._power_distributing._distribution_algorithm import _battery_distribution_algorithm as module
+        m = module
         src, first = inspect.getsourcelines(m.BatteryDistributionAlgorithm._distribute_power)  # pylint: disable=protected-access
         self.file = m.__file__
         self.deficit_lines = {first + i for i, l in enumerate(src)
@@ -256,18 +258,42 @@ def run(req):
                 samples.append({"groups": [[b, i, d] for b, i, d in groups], "exponent": exponent, "power": power,
                                 "distribution": dict(res.distribution), "remaining": res.remaining_power})
             f, fid = check(groups, exponent, power, res, tr, split_log, req.get("prop"))
-            if f and fid is not None:
-                # a listed finding only if the real code still does what the pinned algorithm does on this input
+            if f:
+                # Is this one of the listed findings?  That is decided on the PINNED algorithm (a verbatim copy of the
+                # pinned file): it is run on the same input, classified by the same rules, and the deviation counts as
+                # that finding only if the real code still returns exactly what the pinned algorithm returns.  How the
+                # real code is organised (helpers, names) plays no role.
+                fid = None
                 try:
-                    ref = pinned_algorithm()(distributor_exponent=exponent).distribute_power(
-                        power, [make_pair(b, invs, d) for b, invs, d in groups])
+                    pinned_cls = pinned_algorithm()
+                    pinned_mod = sys.modules[pinned_cls.__module__]
+                    ref_algo = pinned_cls(distributor_exponent=exponent)
+                    ref_log = []
+                    ref_orig = ref_algo._distribute_multi_inverter_pairs  # pylint: disable=protected-access
+
+                    def ref_wrapped(distribution, excl_bounds, incl_bounds, _orig=ref_orig, _log=ref_log):
+                        before = {k: v.power for k, v in distribution.items()}
+                        out = _orig(distribution, excl_bounds, incl_bounds)
+                        for ids, p in before.items():
+                            _log.append((p, {i: out.get(i, 0.0) for i in ids}, reference_split(p, list(ids), excl_bounds, incl_bounds)))
+                        return out
+                    ref_algo._distribute_multi_inverter_pairs = ref_wrapped  # pylint: disable=protected-access
+                    ref_tr = Trace(pinned_mod)
+                    sys.settrace(ref_tr)
+                    try:
+                        ref = ref_algo.distribute_power(power, [make_pair(b, invs, d) for b, invs, d in groups])
+                    finally:
+                        sys.settrace(None)
+                    _, ref_fid = check(groups, exponent, power, ref, ref_tr, ref_log, req.get("prop"))
                 except Exception:  # pylint: disable=broad-except
-                    ref = None
-                if not same_result(res, ref, max(1.0, abs(power))):
-                    f = (f + f"; the pinned algorithm (which defines known finding {fid}) gives "
-                         f"{dict(ref.distribution) if ref else None} / remainder {ref.remaining_power if ref else None} "
-                         f"on this input: this is a different failure")
-                    fid = None
+                    ref, ref_fid = None, None
+                if ref_fid is not None and same_result(res, ref, max(1.0, abs(power))):
+                    fid = ref_fid
+                else:
+                    f = (f + f"; the pinned algorithm gives {dict(ref.distribution) if ref else None} / remainder "
+                         f"{ref.remaining_power if ref else None} on this input"
+                         + (f" (its own deviation there is the listed finding {ref_fid})" if ref_fid else " and satisfies the clauses")
+                         + ": not a listed finding")
             if f:
                 if fid is not None:
                     known.setdefault(fid, f"{f} (exponent {exponent}, request {power}, groups {[(b, i, d) for b, i, d in groups]})"[:600])
